@@ -62,6 +62,10 @@ CHECKS = {
    technique="stateful property-based testing in the deterministic daemon simulation with a reference cache and forced wake-ups at model expiries and timeouts: generated resolve_hostname / stop / responder-answer histories in every letter-case variant",
    text="Exploration: 2.5e4 (quick) / 7e5 (thorough) generated hostname-resolution histories (~1.6 AddressesFound events per case). AddressesFound: every address is an unexpired one received for that name (case-insensitive) and tagged only with interfaces it was learned on; every live address is reported by the end of the next step; AddressesRemoved never while a copy has more than a second left and delivered by the step after expiry; first query asks A and AAAA; refresh query at exactly 80 % of an address's life; SearchTimeout then final SearchStopped exactly at the timeout; no query after the end.",
    note="Trusted: simulation hooks, refdns, reference cache. One search per host name at a time. Known finding: a goodbye for an uncached address is reported as found."),
+ "C11": dict(engine=E2+"+"+E3, design="6/C11",
+   technique="exhaustive enumeration over every TTL up to a bound plus property-based testing of record lifetime / refresh-mark arithmetic and of cache-flush on record pairs through the component facade under a virtual clock, and stateful simulation of a browsing daemon whose refresh queries are compared with the 80/85/90/95 % marks of every received copy",
+   text="Exploration: every TTL 1..=3000 (quick) / 1..=20000 (thorough) x 4 observation patterns enumerated; 2e6 generated observation sequences (expiry boundary, at most one refresh per mark, none after expiry, none before its mark, no mark passed silently, fresh copy restarts); 2e6 generated cache-flush pairs at every age relation around 1000 ms (same/other name, class, interface, RDATA, flush bit, third record of the burst); 2.5e4 simulated histories in which ~5 refresh marks per case are checked on the wire.",
+   note="Trusted: component facade (delegation only), simulation hooks, refdns. Exactly 1000 ms of age is left open."),
 }
 
 def check_entry(pid, c):
